@@ -82,14 +82,32 @@ Check (C19_other_slots_untouched : forall cfg s src sp dp pkt s' acc h,
   (forall pq, nth_error (ds_queries s) h <> Some (Some (QPending pq))) ->
   nth_error (ds_queries s') h = nth_error (ds_queries s) h).
 
-Check (C19_query_terminates : forall cfg evs s now0 h pq t0 t_last,
+Check (C19_query_terminates : forall cfg evs s now0 h pq N t0 t_last,
   cfg_ok cfg -> sock_ok cfg s ->
+  nth_error (ds_queries s) h = Some (Some (QPending pq)) ->
+  pq_timeout_at pq = None -> pq_server_idx pq = 0 ->
+  dns_nsrv (pq_mdns pq) (ds_servers s) <= N ->
+  Forall (dns_servers_le cfg (pq_mdns pq) N) evs ->
+  dns_sched cfg h (pq_port pq) (pq_txid pq) s now0 evs ->
+  dns_ghost None now0 evs = (Some t0, t_last) ->
+  t0 + N * dns_RETRANSMIT_TIMEOUT <= t_last ->
+  nth_error (ds_queries (dns_run cfg s evs)) h = Some (Some QFailure)).
+
+Check (C19_query_terminates_any_servers : forall cfg evs s now0 h pq t0 t_last,
+  cfg_ok cfg -> sock_ok cfg s -> 0 <= c_max_servers cfg ->
+  Z.of_nat (length (ds_servers s)) <= c_max_servers cfg ->
   nth_error (ds_queries s) h = Some (Some (QPending pq)) ->
   pq_timeout_at pq = None -> pq_server_idx pq = 0 ->
   dns_sched cfg h (pq_port pq) (pq_txid pq) s now0 evs ->
   dns_ghost None now0 evs = (Some t0, t_last) ->
-  t0 + Z.of_nat (length (dns_eff_servers (ds_servers s) pq)) * dns_RETRANSMIT_TIMEOUT <= t_last ->
+  t0 + dns_max_nsrv cfg (pq_mdns pq) * dns_RETRANSMIT_TIMEOUT <= t_last ->
   nth_error (ds_queries (dns_run cfg s evs)) h = Some (Some QFailure)).
+
+Check (C19_hop_limit_legal : forall cfg servers n owned evs,
+  Forall ev_ok evs ->
+  1 <= dns_tx_hop (dns_run cfg (dns_new cfg servers n owned) evs) <= 255).
+
+Check (C19_set_hop_limit_zero_panics : forall s, dns_set_hop_limit s (Some 0) = (s, Panic)).
 
 Check (C19_start_query_fresh : forall cfg s name t txid port s' h,
   dns_start_query cfg s name t txid port = (s', Ok h) ->
@@ -110,7 +128,7 @@ Check (C19_poll_is_one_dispatch_each : forall cfg s now,
   cfg_ok cfg -> sock_ok cfg s ->
   exists txs,
     dns_poll cfg s now =
-    Ok (mkSock (ds_servers s) (map (dns_done_slot cfg (ds_servers s) now) (ds_queries s)) (ds_owned s), txs, false)).
+    Ok (mkSock (ds_servers s) (map (dns_done_slot cfg (ds_servers s) now) (ds_queries s)) (ds_owned s) (ds_hop_limit s), txs, false)).
 
 Check (C19_dispatch_backoff_failover : forall cfg servers now pq,
   cfg_ok cfg -> pq_ok cfg pq ->
@@ -155,3 +173,16 @@ Check (C19_example :
     = [Some 0; Some 1000000; Some 3000000; Some 7000000; Some 10000000; None] /\
   nth_error (ds_queries (dns_run c19_cfg c19_started
      [EvPoll 1000000; EvPoll 3000000; EvPoll 7000000; EvPoll 10000000])) 0 = Some (Some QFailure)).
+
+Check (C19_example_servers :
+  nth_error (ds_queries (dns_run c19_cfg c19_started [EvServers []; EvPoll 1000000])) 0 = Some (Some QFailure) /\
+  (exists pl, snd (dns_step c19_cfg (dns_run c19_cfg c19_started [EvServers [[10; 0; 0; 11]]]) (EvPoll 1000000))
+              = ObPoll [mkTx [10; 0; 0; 11] 50000 53 pl] false) /\
+  dns_run_obs c19_cfg c19_started [EvServers [[10; 0; 0; 11]]; EvPoll 1000000; EvPoll 3000000; EvPoll 7000000; EvPoll 10000000]
+    = [Some 1000000; Some 3000000; Some 7000000; Some 10000000; None] /\
+  dns_run c19_cfg c19_started [EvServers [[10; 0; 0; 11]]; EvRsp c19_server 53 50000 wdns_example_response]
+    = dns_run c19_cfg c19_started [EvServers [[10; 0; 0; 11]]] /\
+  ds_servers (dns_run c19_cfg c19_started [EvServers [[10; 0; 0; 11]; [10; 0; 0; 12]]]) = [[10; 0; 0; 11]] /\
+  dns_step c19_cfg c19_started (EvHop (Some 0)) = (c19_started, ObHop Panic) /\
+  dns_tx_hop c19_started = 64 /\
+  dns_tx_hop (dns_run c19_cfg c19_started [EvHop (Some 7)]) = 7).
